@@ -376,13 +376,29 @@ func Replay(c Case) (res Result) {
 	for i := 0; i < len(c.Cfg.Lens)+4; i++ {
 		rc.used = 0
 		rc.asked = 0
-		rctx := newManualCtx()
+		mctx := newManualCtx()
 		endWith := context.DeadlineExceeded
 		if c.N%2 == 1 {
 			endWith = context.Canceled
 		}
-		rc.cancel = func() { rctx.end(endWith) }
+		rc.cancel = func() { mctx.end(endWith) }
+		var rctx context.Context = mctx
+		hasCtxEnd := false
+		for _, st := range c.Plan.R {
+			if st.R == "ctxend" {
+				hasCtxEnd = true
+			}
+		}
+		var dcancel context.CancelFunc
+		if !hasCtxEnd && c.N%3 == 0 {
+			// a context with a deadline of its own, comfortably in the future: transient timeouts of the
+			// connection are no reason to give up before it
+			rctx, dcancel = context.WithTimeout(context.Background(), 3*time.Second)
+		}
 		e, err := rcv.Receive(rctx)
+		if dcancel != nil {
+			dcancel()
+		}
 		if err != nil {
 			res.Actual = append(res.Actual, Event{K: "recv", Res: "err", Used: rc.used, Asked: rc.asked, Segs: [][3]int{}})
 			if failed {
